@@ -44,7 +44,7 @@ func runC17(r *Report) {
 			continue
 		}
 		for po := range params {
-			key := fmt.Sprintf("%s/%s/%s", rv, FuncKey(po.Parent()), po.Name())
+			key := fmt.Sprintf("%s/%s/%s", rv, FuncKey(po.Parent()), refName(po))
 			// the sites to protect: the appends, lifted to the function that owns the parameter
 			owner := po.Parent()
 			sites := liftSites(appends, owner)
@@ -54,7 +54,7 @@ func runC17(r *Report) {
 			}
 			zeroEdges, nonZero := lenTestsOn(owner, po)
 			if len(nonZero) == 0 {
-				r.Bad(rv, key, sites[0].Pos(), fmt.Sprintf("%s is logged to the WAL before %s is validated: an empty or nil %s is made durable (or poisons the log) although the call is rejected or reads differently after a flush", po.Name(), po.Name(), po.Name()))
+				r.Bad(rv, key, sites[0].Pos(), fmt.Sprintf("%s is logged to the WAL before %s is validated: an empty or nil %s is made durable (or poisons the log) although the call is rejected or reads differently after a flush", refName(po), refName(po), refName(po)))
 				continue
 			}
 			removed := map[Edge]bool{}
@@ -68,7 +68,7 @@ func runC17(r *Report) {
 				}
 			}
 			if bad {
-				r.Bad(rv, key, sites[0].Pos(), fmt.Sprintf("the WAL append is reachable without passing the non-empty edge of a test of len(%s)", po.Name()))
+				r.Bad(rv, key, sites[0].Pos(), fmt.Sprintf("the WAL append is reachable without passing the non-empty edge of a test of len(%s)", refName(po)))
 				continue
 			}
 			// empty edges: failing return of ErrEmptyKeyValue, append unreachable
